@@ -139,7 +139,13 @@ func (r *readCommand) read(ctx context.Context, ltx lcontext.LContext,
 		limiter = r.server.tailLimiter
 	}
 
+	// Only give a slot back if this read actually took one: a read cancelled
+	// while still queued must not release a slot owned by a running read.
+	acquired := false
 	defer func() {
+		if !acquired {
+			return
+		}
 		select {
 		case <-limiter:
 		default:
@@ -159,6 +165,7 @@ func (r *readCommand) read(ctx context.Context, ltx lcontext.LContext,
 			return
 		}
 	}
+	acquired = true
 
 	lines := r.server.lines
 	aggregate := r.server.aggregate
